@@ -145,3 +145,39 @@ def rule_guard_discipline(ctx, rid, funcs, reason, bound=4000, exempt=None):
         if clean:
             ctx.ok(rid, F, "no unprotected dereference of a shared pointer on any path", None, sig="guarded")
     return analysed, skipped
+
+
+
+def rule_free_only_unpublished(ctx, rid, funcs, free_re, alloc_re, teardown, what, reason):
+    """premise of a 'these objects are never reclaimed while the container lives' exemption: the freeing routine is called only from the
+    tear-down members, or for an object allocated on the same path whose publishing CAS failed (or that was never offered to a CAS)"""
+    fre = re.compile(free_re)
+    are = re.compile(alloc_re)
+    n = 0
+    for F in funcs:
+        if not Q.calls_in(F, free_re):
+            continue
+        name = F.q.split("::")[-1]
+        if name in teardown or F.kind == "dtor":
+            n += 1
+            ctx.ok(rid, F, "%s are freed by the tear-down routine" % what, None, sig="free-teardown")
+            continue
+        if fre.search(F.q):
+            continue        # the freeing routine itself (and its helpers of the same name)
+        try:
+            ps = PathSim(F, bound=2000).run()
+        except PathBoundExceeded:
+            ctx.bad(rid, F, "%s: cannot enumerate the paths of a function that frees them" % what, None, sig="free-unbounded")
+            continue
+        for p in ps:
+            ev = p.events
+            for i, e in enumerate(ev):
+                if e.kind == "call" and e.q and fre.search(e.q):
+                    n += 1
+                    a = e.args[0] if e.args else None
+                    fresh = any(x.kind == "call" and x.val == a and x.q and are.search(x.q) for x in ev[:i])
+                    pub = [x for x in ev[:i] if x.kind == "call" and (atomic_op(x) or "").startswith("compare_exchange") and len(x.args) > 1 and x.args[1] == a]
+                    won = [x for x in pub if any(atom == x.val and tv for atom, tv, b in cond_atoms(p))]
+                    ctx.check(fresh and not won, rid, F, "%s are freed outside tear-down only if allocated here and never published" % what, e.node,
+                              detail="readers walk them without guards because they outlive every operation. " + reason, sig="free-unpublished")
+    return n
